@@ -390,6 +390,12 @@ impl<'a, 'tcx> HirVisitor<'tcx> for HirFacts<'a, 'tcx> {
                     ));
                 }
             }
+            rustc_hir::ExprKind::Closure(cl) => {
+                // closure bodies are nested bodies: the default visitor does not enter them, but they share the typeck
+                // results of the enclosing function, so their field accesses / method calls belong to this owner
+                let body = cx.tcx.hir_body(cl.body);
+                self.visit_expr(body.value);
+            }
             _ => {}
         }
         intravisit::walk_expr(self, e);
